@@ -102,6 +102,9 @@ type VC struct {
 	storeDefs    map[string][3]string     // heap version constant -> (previous version, reference, stored value)
 	closureBinds map[string][]Val         // closure terms -> the values bound at MakeClosure
 	fnOfTerm     map[string]*ssa.Function // terms known to denote a specific function / closure
+	fnSetOfTerm  map[string][]*ssa.Function // terms known to denote one of a few functions (merged paths)
+	mergeDefs    map[string][]string        // merged heap version -> the versions it was merged from
+	notBoolPred  map[string]bool            // closed spec functions that are not boolean (expanded as macros)
 	deferred     []string
 	asserts      []string
 	obligs       []*Obligation
@@ -119,7 +122,7 @@ type VC struct {
 
 func newVC(p *Program, name string) *VC {
 	return &VC{prog: p, fnName: name, declared: map[string]bool{}, inlined: map[string]bool{}, assumed: map[string]bool{},
-		havocked: map[string]bool{}, structs: map[string]bool{}, litCache: map[string]string{}, compSorts: map[string]string{}, storeDefs: map[string][3]string{}, closureBinds: map[string][]Val{}, fresh_: map[string]bool{}, fnOfTerm: map[string]*ssa.Function{}, arrayLits: map[string][]string{}, regions: map[string]string{}, nonNil: map[string]bool{}, compTypes: map[string]types.Type{}, knownTag: map[string]int{}, tags: map[string]int{}, fnIDs: map[*ssa.Function]int{}, usedAnchors: map[string]bool{}}
+		havocked: map[string]bool{}, structs: map[string]bool{}, litCache: map[string]string{}, compSorts: map[string]string{}, storeDefs: map[string][3]string{}, closureBinds: map[string][]Val{}, fresh_: map[string]bool{}, fnOfTerm: map[string]*ssa.Function{}, fnSetOfTerm: map[string][]*ssa.Function{}, mergeDefs: map[string][]string{}, notBoolPred: map[string]bool{}, arrayLits: map[string][]string{}, regions: map[string]string{}, nonNil: map[string]bool{}, compTypes: map[string]types.Type{}, knownTag: map[string]int{}, tags: map[string]int{}, fnIDs: map[*ssa.Function]int{}, usedAnchors: map[string]bool{}}
 }
 
 func (vc *VC) fresh(base string) string {
@@ -171,6 +174,9 @@ func (vc *VC) define(base, sort, term string) string {
 	if sort == "Fn" {
 		if fn, ok := vc.fnOfTerm[term]; ok {
 			vc.fnOfTerm[n] = fn
+		}
+		if set, ok := vc.fnSetOfTerm[term]; ok {
+			vc.fnSetOfTerm[n] = set
 		}
 		if b, ok := vc.closureBinds[term]; ok {
 			vc.closureBinds[n] = b
@@ -674,7 +680,49 @@ func (vc *VC) mergeTerms(base, sort string, conds, ts []string) string {
 	for i := len(ts) - 2; i >= 0; i-- {
 		term = fmt.Sprintf("(ite %s %s %s)", conds[i], ts[i], term)
 	}
-	return vc.define(base, sort, term)
+	n := vc.define(base, sort, term)
+	if base == "mh" && n != term {
+		vc.mergeDefs[n] = append([]string{}, ts...)
+	}
+	return n
+}
+
+// fnSetAt: the functions a function-typed field of object ref can hold in heap version c, when c is built from the
+// version history by stores of known functions to that same object and merges of such versions only (nil = unknown)
+func (vc *VC) fnSetAt(c, ref string, depth int) []*ssa.Function {
+	if depth > 40 {
+		return nil
+	}
+	if sd, ok := vc.storeDefs[c]; ok {
+		if sd[1] != ref {
+			return nil
+		}
+		if fn := vc.fnOfTerm[sd[2]]; fn != nil && len(fn.FreeVars) == 0 {
+			return []*ssa.Function{fn}
+		}
+		if set, ok := vc.fnSetOfTerm[sd[2]]; ok {
+			return set
+		}
+		return nil
+	}
+	if md, ok := vc.mergeDefs[c]; ok {
+		var out []*ssa.Function
+		seen := map[*ssa.Function]bool{}
+		for _, b := range md {
+			set := vc.fnSetAt(b, ref, depth+1)
+			if set == nil {
+				return nil
+			}
+			for _, fn := range set {
+				if !seen[fn] {
+					seen[fn] = true
+					out = append(out, fn)
+				}
+			}
+		}
+		return out
+	}
+	return nil
 }
 
 func and(xs ...string) string {
